@@ -119,7 +119,7 @@ class Gen:
             k = rng.randrange(8)
             if k == 0:
                 parts.append('<rect x="%d" y="%d" width="%d" height="%d" fill="%s" stroke="black"/>' % (
-                    rng.randint(0, 20), rng.randint(0, 10), rng.randint(1, 30), rng.randint(1, 20), rng.choice(['red', 'url(#%s)' % u, 'none', '#0a0'])))
+                    rng.randint(0, 20), rng.randint(0, 10), rng.randint(1, 30), rng.randint(1, 20), rng.choice(['red', 'url(#%s)' % u, 'url(#%sg)' % u, 'none', '#0a0'])))
             elif k == 1:
                 parts.append('<circle cx="%d" cy="%d" r="%d" fill="blue" opacity="%s"/>' % (rng.randint(5, 40), rng.randint(5, 20), rng.randint(1, 12), rng.choice(['1', '.5'])))
             elif k == 2:
@@ -134,24 +134,27 @@ class Gen:
             elif k == 6:
                 parts.append('<image href="%s" x="1" y="1" width="10" height="10"/>' % rng.choice(['pattern.png', 'blue.jpg']))
             else:
-                parts.append('<rect width="20" height="12" fill="teal" clip-path="url(#%sc)" mask="%s"/>' % (u, rng.choice(['none', 'url(#%sm)' % u])))
+                parts.append('<rect width="20" height="12" fill="teal" clip-path="url(#%sc)" opacity="%s"/>' % (u, rng.choice(['1', '.4'])))
         defs = ('<defs><linearGradient id="%s"><stop offset="0" stop-color="red"/><stop offset="1" stop-color="blue" stop-opacity=".5"/>'
                 '</linearGradient><rect id="%sr" width="6" height="6" fill="purple"/><clipPath id="%sc"><circle cx="8" cy="6" r="6"/></clipPath>'
-                '<mask id="%sm"><rect width="10" height="12" fill="white"/></mask>'
-                '<pattern id="%sp" width="4" height="4" patternUnits="userSpaceOnUse"><rect width="2" height="2" fill="black"/></pattern></defs>'
-                % (u, u, u, u, u))
+                '<radialGradient id="%sg"><stop offset="0" stop-color="#fff"/><stop offset="1" stop-color="#060"/></radialGradient></defs>'
+                % (u, u, u, u))
         return '<svg xmlns="http://www.w3.org/2000/svg" width="%d" height="%d" viewBox="0 0 50 30">%s%s</svg>' % (
             rng.choice([50, 100, 30]), rng.choice([30, 60, 20]), defs, ''.join(parts))
 
     def block(self, depth=0):
         rng = self.rng
-        kinds = ['p', 'p', 'p', 'h', 'h', 'list', 'table', 'flex', 'grid', 'img', 'svg', 'form', 'deco', 'float', 'abs',
-                 'columns', 'pre', 'div', 'break', 'toc', 'running', 'hyph', 'dl', 'transform']
+        kinds = ['p', 'p', 'p', 'h', 'h', 'h', 'list', 'list', 'table', 'table', 'flex', 'flex', 'grid', 'grid', 'img', 'img', 'svg',
+                 'svg', 'form', 'form', 'deco', 'deco', 'float', 'abs', 'columns', 'pre', 'div', 'div', 'break', 'toc', 'toc', 'running',
+                 'hyph', 'dl', 'transform']
         if self.allow is not None:
             kinds = [k for k in kinds if k in self.allow] or ['p']
+        if depth > 0:      # nested content: simple blocks only (nested columns/flex are slow; running() in flex crashes)
+            kinds = [k for k in kinds if k in ('p', 'p', 'h', 'list', 'img', 'deco', 'pre', 'dl', 'form', 'svg', 'float', 'abs',
+                                               'transform', 'break')] or ['p']
+            if depth == 1 and rng.random() < 0.15:
+                kinds = [k for k in ('table', 'flex', 'grid') if self.allow is None or k in self.allow] or kinds
         k = rng.choice(kinds)
-        if depth > 2 and k in ('div', 'columns', 'flex', 'grid', 'table'):
-            k = 'p'
         self.feats.add(k)
         if k == 'p':
             return '<p%s>%s</p>' % (rng.choice(['', '', ' style="text-align:justify"', ' style="text-indent:1em"', ' lang=fr',
@@ -297,7 +300,7 @@ FONT_FACES = {
 def gen_doc(rng, feats=None, nblocks=None, bleed=None):
     g = Gen(rng, feats)
     body_family = g.family()
-    blocks = [g.block() for _ in range(nblocks or rng.randint(3, 9))]
+    blocks = [g.block() for _ in range(nblocks or rng.randint(2, 6))]
     size = rng.choice(['300px 220px', '400px 300px', 'A6', '250px 180px', 'A5 landscape', '500px 200px'])
     margin = rng.choice(['10px', '20px 15px', '1cm', '30px 10px 25px 12px'])
     if bleed is None:
@@ -334,6 +337,8 @@ def gen_doc(rng, feats=None, nblocks=None, bleed=None):
                % rng.choice(['decimal', 'lower-alpha', 'upper-roman', 'mycyc']))
     if 'mycyc' in css[-1]:
         g.counter_styles.add('mycyc')
+    if rng.random() < 0.3:
+        css.append('@media screen { p { color: green; margin-left: 4px } } @media print { h2 { font-style: italic } }')
     css.append('p { margin: .3em 0 } table.t td, table.t th { border: 1px solid #777; padding: 1px 2px } '
                '.fn { float: footnote; font-size: 8px } .cnt::after { content: counters(list-item, ".") "|" counter(ch) } '
                'a.tc::after { content: " (p. " target-counter(attr(href), page) ")" } '
@@ -366,3 +371,265 @@ def gen_doc(rng, feats=None, nblocks=None, bleed=None):
     html = '<html lang="%s"><head><meta charset=utf-8>%s<style>%s</style></head><body>%s</body></html>' % (
         rng.choice(['en', 'fr', 'de', 'en-GB']), meta, '\n'.join(css), '\n'.join(blocks))
     return {'html': html, 'css': user_css, 'feats': sorted(g.feats), 'bleed': bool(bleed)}
+
+
+# ======================================================================================================================
+# findings of this check that are reported to the maintainers of the framework (see the final report); until they
+# are listed in known_findings.json they are treated like listed open findings: counted, printed, not failing.
+PENDING = {
+    'c19:inline-svg-mutates-html-tree': 'drawing an inline <svg> renames mask/pattern/symbol elements of the caller\'s HTML tree; '
+                                        'the second render of the same HTML object loses the mask/pattern',
+    'c19:marks-layer-accumulates-on-rewrite': 'draw_background inserts the crop/cross marks layer into the page background at each '
+                                              'write: the same Document written twice gives different bytes',
+    'c19:image-cache-ignores-options': 'get_image_from_uri caches by URL only although the RasterImage depends on dpi / '
+                                       'optimize_images / jpeg_quality: a cache shared by renders with different options leaks them',
+    'c19:image-cache-dpi-overwrites-source': 'get_x_object replaces the cached source data by the down-sampled image (dpi option): '
+                                             'later renders sharing the cache embed the thumbnail; JPEG re-encoded at each render',
+    'c19:document-fonts-persist-across-writes': 'Document.fonts keeps subsetted Font objects: write_pdf(full_fonts=True) after a '
+                                                'default write embeds the subset',
+    'c19:copy-loses-html-for-pdfua': 'Document.copy() drops _html: copy().write_pdf(pdf_variant="pdf/ua-1") raises AttributeError',
+    'c19:attachment-dates-from-clock': 'URL attachments get datetime.now() as creation/modification dates: bytes differ between runs '
+                                       'although pdf_identifier and SOURCE_DATE_EPOCH are fixed',
+    'c19:flex-stretch-writeback-relayout': 'flex layout writes the stretched cross size into child.style: a container laid out twice '
+                                           '(pushed to the next page) distributes align-content:stretch space differently',
+    'c19:grid-stretch-writeback-relayout': 'grid layout writes stretched width/height into child.style: a grid laid out twice sizes '
+                                           'its auto tracks differently',
+    'c19:bleedbox-cap-not-scaled': 'BleedBox is at most 10 points from the TrimBox whatever the zoom: it does not scale with zoom',
+}
+FOREIGN_KNOWN = {'c13:image-cache-ignores-orientation'}      # listed under another property: never re-reported here
+
+
+def report(run, what, data, signature):
+    """run.fail, except for findings already handed over (PENDING) or listed open under any property."""
+    listed = {k.get('signature') for k in common.load_known() if k.get('status') == 'open'}
+    mine = {k.get('signature') for k in run.known}
+    if signature in mine:
+        return run.fail(what, data, signature=signature)
+    if signature in listed or signature in PENDING or signature in FOREIGN_KNOWN:
+        run.known_hits.append(({'signature': signature}, what))
+        return False
+    return run.fail(what, data, signature=signature)
+
+
+def has_marks(doc):
+    return 'marks:' in doc['html'] and 'bleed:' in doc['html']
+
+
+# ======================================================================================================================
+# stream 6: the differential monitor.  A *key* is (document, option profile, zoom); every observation made for one key
+# - in a fresh interpreter under any hash seed, at any position of any history, with shared or fresh HTML / CSS /
+# FontConfiguration / cache objects, through any sink - must be the same value.
+
+ZOOMS = [0.1, 0.5, 1, 2, 3.7, 10]
+SINKS = ['bytes', 'bytes', 'fileobj', 'path', 'pathlib']
+IMG_OPTS = [{}, {}, {'optimize_images': True}, {'jpeg_quality': 60}, {'optimize_images': True, 'jpeg_quality': 30}]
+
+
+def gen_profiles(rng, doc):
+    """Two option profiles per document: the defaults and a random selection (image options are per document: a cache
+    shared between renders with different image options is the listed finding c19:image-cache-ignores-options)."""
+    img = dict(rng.choice(IMG_OPTS))
+    p0 = {'pdf_identifier': 'c19', **img}
+    p1 = {'pdf_identifier': 'c19', **img}
+    if rng.random() < 0.5:
+        p1['pdf_forms'] = True
+    if rng.random() < 0.4:
+        p1['uncompressed_pdf'] = True
+    if rng.random() < 0.3:
+        p1['pdf_variant'] = rng.choice(['pdf/a-1b', 'pdf/a-2u', 'pdf/a-3b', 'pdf/a-4u', 'pdf/ua-1', 'debug'])
+    if rng.random() < 0.2:
+        p1['pdf_version'] = rng.choice(['1.4', '2.0'])
+    if rng.random() < 0.2:
+        p1['srgb'] = True
+    if rng.random() < 0.3:
+        p1['custom_metadata'] = True
+    if rng.random() < 0.2:
+        p1['full_fonts'] = True
+    if rng.random() < 0.2:
+        p1['hinting'] = True
+    if rng.random() < 0.2:
+        p1['presentational_hints'] = True
+    if rng.random() < 0.15:
+        p1['media_type'] = 'screen'
+    return [p0, p1], img
+
+
+def gen_step(rng, d, prof, docs, mode):
+    step = {'doc': d, 'profile': prof, 'opts': docs[d]['profiles'][prof],
+            'html': rng.choice(['fresh', 'shared', 'shared']) if mode != 'one-html' else 'shared',
+            'fc': rng.choice(['none', 'fresh', 'shared', 'shared']),
+            'cache': rng.choice(['none', 'fresh', 'shared', 'shared', 'disk']),
+            'api': rng.choice(['write', 'render', 'render']),
+            'sink': rng.choice(SINKS),
+            'zoom': 1 if rng.random() < 0.8 else rng.choice(ZOOMS)}
+    step['css'] = rng.choice(['fresh', 'shared']) if step['fc'] == 'shared' else 'fresh'
+    if step['api'] == 'render':
+        if rng.random() < 0.3:
+            step['copy_all'] = True
+        if rng.random() < 0.3:
+            step['rewrite'] = True
+    return step
+
+
+def gen_history(rng, hid, docs):
+    n = rng.randint(2, 6)
+    mode = rng.choice(['one-html', 'one-doc', 'mixed', 'mixed', 'alternate'])
+    nd = len(docs)
+    if mode in ('one-html', 'one-doc'):
+        pool = [rng.randrange(nd)]
+    elif mode == 'alternate':
+        pool = rng.sample(range(nd), 2)
+    else:
+        pool = [rng.randrange(nd) for _ in range(n)]
+    steps = []
+    cache_img = None
+    for i in range(n):
+        d = pool[i % len(pool)] if mode == 'alternate' else rng.choice(pool)
+        st = gen_step(rng, d, rng.choice([0, 0, 1]), docs, mode)
+        if st['cache'] == 'shared':
+            img = json.dumps(docs[d]['imgopts'], sort_keys=True)
+            if cache_img is None:
+                cache_img = img
+            elif cache_img != img:
+                st['cache'] = 'fresh'
+        steps.append(st)
+    return {'id': hid, 'mode': mode, 'steps': steps}
+
+
+def step_key(st):
+    return (st['doc'], st['profile'], st['zoom'])
+
+
+def layout_key(st):
+    return (st['doc'], st['profile'])
+
+
+def _subjob(docs, histories):
+    """Restrict a job to the documents it uses (for replay files)."""
+    used = sorted({s['doc'] for h in histories for s in h['steps']})
+    remap = {d: i for i, d in enumerate(used)}
+    hs = []
+    for h in histories:
+        hs.append({'id': h['id'], 'mode': h.get('mode'), 'steps': [dict(s, doc=remap[s['doc']], orig_doc=s.get('orig_doc', s['doc'])) for s in h['steps']]})
+    return {'docs': [docs[d] for d in used], 'histories': hs}
+
+
+def classify_fc(doc):
+    return '@font-face' in doc['html'] or any('@font-face' in c for c in doc.get('css', []))
+
+
+def stream_monitor(run, rng, ndocs, nhist, njobs):
+    docs = []
+    for i in range(ndocs):
+        d = gen_doc(rng)
+        d['profiles'], d['imgopts'] = gen_profiles(rng, d)
+        docs.append(d)
+    jobs = []
+    # (a) fresh interpreter, one render, two hash seeds per key
+    k = 0
+    for d in range(ndocs):
+        for prof in (0, 1):
+            seeds = (k % 4, (k + 1 + k // 4) % 4)
+            if seeds[0] == seeds[1]:
+                seeds = (seeds[0], (seeds[0] + 2) % 4)
+            for s in seeds:
+                st = {'doc': d, 'profile': prof, 'opts': docs[d]['profiles'][prof], 'html': 'fresh', 'css': 'fresh', 'fc': 'none',
+                      'cache': 'none', 'api': 'render', 'sink': 'bytes', 'zoom': 1}
+                jobs.append({'hashseed': s, 'kind': 'fresh', 'histories': [{'id': 'fresh-%d-%d-%d' % (d, prof, s), 'steps': [st]}]})
+            k += 1
+    # (b) histories, several per interpreter (the interpreter's earlier histories are part of the history)
+    hists = [gen_history(rng, 'h%d' % i, docs) for i in range(nhist)]
+    for j in range(njobs):
+        jobs.append({'hashseed': j % 4, 'kind': 'histories', 'histories': hists[j::njobs]})
+    cases = [{'hashseed': j['hashseed'], 'timeout': 600, 'job': _subjob(docs, j['histories'])} for j in jobs]
+    outs = common.run_impl('impl_c19', 'spawn', cases, limit=700, chunksize=1)
+    by_key, by_layout = {}, {}
+    nsteps = 0
+    seen = set()
+    hash_probes = {}
+    mutated_reports = 0
+    for ji, (job, case, (st, o)) in enumerate(zip(jobs, cases, outs)):
+        if st != 'ok' or o.get('crashed'):
+            run.oblige('monitor:job-%d-ran' % ji, False, 'interpreter failed: %s' % (o,))
+            continue
+        hash_probes.setdefault(job['hashseed'], set()).add(o['hash_probe'])
+        if o['module_mutated']:
+            run.fail('module-level state modified by rendering: %s' % o['module_mutated'],
+                     {'stream': 'monitor', 'clause': 'module-state', 'job': case, 'what': o['module_mutated']},
+                     signature='c19:module-state-mutated')
+        for h, ho in zip(job['histories'], o['histories']):
+            for si, (step, obs) in enumerate(zip(h['steps'], ho['steps'])):
+                nsteps += 1
+                where = {'job': ji, 'hashseed': job['hashseed'], 'history': h['id'], 'step': si, 'kind': job['kind'],
+                         'cfg': {k: step.get(k) for k in ('html', 'css', 'fc', 'cache', 'api', 'sink', 'copy_all', 'rewrite')}}
+                val = ('exc', tuple(obs['exc']['site'] or ()), obs['exc']['type']) if 'exc' in obs else ('pdf', obs['pdf'], obs['len'])
+                by_key.setdefault(step_key(step), []).append((val, where))
+                if 'layout' in obs:
+                    by_layout.setdefault(layout_key(step), []).append((tuple(obs['layout']), where))
+                seen.add((step['html'], step['css'], step['fc'], step['cache'], step['api'], step['sink'], step['zoom'] != 1,
+                          step['profile'], 'exc' in obs))
+                doc = docs[step['doc']]
+                mut = list(obs['mutated'])
+                if obs.get('fc_files_added') and not classify_fc(doc):
+                    mut.append('font_config.files')
+                if mut and mutated_reports < 3:
+                    mutated_reports += 1
+                    run.fail('rendering modified caller-owned objects: %s' % mut,
+                             {'stream': 'monitor', 'clause': 'inputs-not-mutated', 'job': case, 'where': where, 'mutated': mut},
+                             signature='c19:input-mutated:%s' % mut[0])
+                if obs.get('rewrite_same') is False:
+                    report(run, 'the same Document written twice with the same options gives different bytes',
+                           {'stream': 'monitor', 'clause': 'rewrite', 'job': case, 'where': where},
+                           'c19:marks-layer-accumulates-on-rewrite' if has_marks(doc) else 'c19:document-rewrite-differs')
+                if obs.get('ret_none') is False:
+                    run.fail('write_pdf(target) returned a value', {'stream': 'monitor', 'clause': 'sink-return', 'job': case, 'where': where},
+                             signature='c19:sink-return')
+    reported = 0
+    for table, clause in ((by_layout, 'layout'), (by_key, 'pdf-bytes')):
+        for key, vals in sorted(table.items()):
+            distinct = {}
+            for v, w in vals:
+                distinct.setdefault(v, []).append(w)
+            if len(distinct) > 1 and reported < 3:
+                reported += 1
+                groups = sorted(distinct.items(), key=lambda kv: -len(kv[1]))
+                a, b = groups[0][1][0], groups[1][1][0]
+                sig = 'c19:nondeterministic-%s' % clause
+                excs = [g for g in distinct if g[0] == 'exc']
+                if excs and all(g[1][-1:] == ('build_element_structure',) for g in excs) and \
+                        all(w['cfg'].get('copy_all') for g in excs for w in distinct[g]) and \
+                        not any(w['cfg'].get('copy_all') for g in distinct if g[0] != 'exc' for w in distinct[g]):
+                    sig = 'c19:copy-loses-html-for-pdfua'
+                report(run, '%s of one input differs between executions: key (doc %d, profile %d%s): %s [%s] vs %s [%s]' % (
+                    clause, key[0], key[1], ', zoom %s' % key[2] if len(key) > 2 else '', str(groups[0][0])[:80], a, str(groups[1][0])[:80], b),
+                    {'stream': 'monitor', 'clause': clause, 'key': list(key), 'a': a, 'b': b,
+                     'job_a': cases[a['job']], 'job_b': cases[b['job']], 'doc': docs[key[0]]}, sig)
+    ok_seeds = all(len(v) == 1 for v in hash_probes.values()) and len({tuple(v) for v in hash_probes.values()}) == len(hash_probes)
+    run.oblige('monitor:hash-seeds-effective', ok_seeds and len(hash_probes) >= 4,
+               'hash("c19-probe") per PYTHONHASHSEED: %s' % {k: sorted(v) for k, v in hash_probes.items()})
+    multi = sum(1 for v in by_key.values() if len(v) > 1)
+    run.count('monitor', nsteps, [('key',) + k for k in by_key] + [('cfg',) + tuple(map(str, s)) for s in seen],
+              samples=[docs[0]['html'][:700]])
+    feats = {}
+    for d in docs:
+        for f in d['feats']:
+            feats[f] = feats.get(f, 0) + 1
+    run.stream_info('monitor', documents=ndocs, histories=nhist, interpreters=len(jobs), renders=nsteps, keys=len(by_key),
+                    keys_observed_more_than_once=multi, configurations=len(seen), features=feats,
+                    rule='random documents (grammar above) x 2 option profiles; every key rendered once in a fresh interpreter under two of '
+                         'PYTHONHASHSEED 0..3 and again inside histories of 2..6 renders (one HTML object re-rendered, one document, '
+                         'alternating, mixed) with shared/fresh HTML, CSS, FontConfiguration, cache dict/DiskCache objects, write_pdf or '
+                         'render+write, copy(all pages), 4 sinks, zoom; compared: PDF bytes (sha256), layout fingerprints (exact), '
+                         'exception sites; snapshots of HTML tree / CSS objects / options / font configuration / module state')
+    return docs
+
+
+def check(run):
+    rng = random.Random(run.seed * 7919 + 19)
+    thorough = run.tier == 'thorough'
+    k = 8 if thorough else 1
+    stream_monitor(run, rng, 24 * k, 96 * k, 16 * (4 if thorough else 1))
+
+
+def replay(data):
+    return 0
